@@ -68,11 +68,12 @@ func runC36(c *Ctx) {
 		}, G1Opt{BoolSuccess: true})
 		// the tested address is the request's RemoteAddr
 		ok := false
-		for _, call := range ssau.CallsIn(ca, func(cm *ssa.CallCommon) bool {
+		for _, vc := range callsVia(ca, func(cm *ssa.CallCommon) bool {
 			f := cm.StaticCallee()
 			return f != nil && f.String() == "net.SplitHostPort"
 		}) {
-			ok = ssau.IsFieldOf(ssau.Unwrap(call.Common().Args[0]), "Request", "RemoteAddr")
+			vc := vc
+			vc.with(func() { ok = ssau.IsFieldOf(ssau.Unwrap(vc.call.Common().Args[0]), "Request", "RemoteAddr") })
 		}
 		c.R.Check("G2-access", "clientAllowed|address = r.RemoteAddr", ok, c.pos(ca.Pos()), "the filtered address is the connection's remote address (not a header)")
 		// nothing the client can put into the request (headers, URL, body) flows into the tested address
